@@ -174,6 +174,137 @@ theorem blockScoring_eq_lane_short (arm : Disc.Arm) (dm : Mat UInt8 K) (seq : St
   | generic => exact C08.scoreRowsGeneric_empty _ dm seq lo hi (Or.inl hshort)
   | sse2 => exact C08.scoreRowsGeneric_empty _ dm seq lo hi (Or.inl hshort)
 
+/-! ### the block maximum and the candidate list of the scanner ARE those of C07
+
+  `Scanner.maxDispatch` / `Scanner.threshold` (Model/Scanner, hand-written from scan.rs's callees) and
+  `Maximum.dispMaxU8` / `Maximum.thresholdGeneric` (Model/Maximum, driven by the tables of
+  `LMV.Gen.MaxK` regenerated from pli/mod.rs, avx2.rs and dispatch.rs on every run) model the same
+  Rust code.  Here they are proved equal on every block, and the scanner theorems are restated for a
+  kernel record whose `max` / `threshold` fields are C07's functions and whose `KernelSpec` clauses
+  about them are C07's theorems — so that C02 / C03 depend on the regenerated dispatcher / kernel
+  tables (`dispU8Max`, `mu8Init`, `mu8AccFirst`, `genericArgmaxRel`, `genericThresholdRel`). -/
+
+section LinkC07
+open Scanner Disc
+
+/-- the dispatcher arm, in the vocabulary of the scanner model and of the maximum model -/
+def backendOf : Disc.Arm → Maximum.Backend
+  | .generic => .generic
+  | .sse2 => .sse2
+  | .avx2 => .avx2
+
+/-- the comparisons of `u8` (`C07.u8Cmp`: `le`/`lt` = `decide (≤)`/`decide (<)`, `zero = 0`) are
+    the ones C07's `u8` theorems are about -/
+theorem u8Cmp_isU8 : C07.IsU8 C07.u8Cmp := C07.u8Cmp_isU8
+
+/-- a 2-row block: 200 at (1, 9) and again at (0, 20), 7 at (0, 3), 0 elsewhere -/
+def lBlk : Disc.Scores 32 :=
+  ⟨Mat.ofFn 2 fun r c => if (r = 1 ∧ c = 9) ∨ (r = 0 ∧ c = 20) then 200 else if r = 0 ∧ c = 3 then 7 else 0, 64⟩
+
+/-- a 2-row block of zeros (the accumulators of `max_u8_avx2` never move) -/
+def lZero : Disc.Scores 32 := ⟨Mat.ofFn 2 fun _ _ => 0, 64⟩
+
+/-- the scanner's block maximum bounds every cell and is the content of one: `C07.IsMax`, from the
+    hand-written specifications of Lemmas/ScanKernels -/
+theorem maxDispatch_isMax_direct (arm : Disc.Arm) (sc : Disc.Scores 32) (m : UInt8)
+    (hm : Scanner.maxDispatch arm sc = some m) :
+    C07.IsMax C07.u8Cmp sc.data.rows 32 (fun r c => sc.data.get r c) m :=
+  ⟨C02.maxDispatch_attained (by decide) arm sc m hm,
+    fun r c hr hc => decide_eq_true (C02.maxDispatch_ge arm sc m hm r c hr hc)⟩
+
+/-- **1. The scanner's block maximum IS the table-driven dispatcher maximum of C07**, for every arm
+    and every block — any number of rows, 0 and more than 65 536 included (`max_u8_avx2` and the
+    trait default through `argmax` of the generic pipeline have no row limit; only `argmax_u8_avx2`,
+    which no `max` arm of the dispatcher calls — `dispU8Max`, `C07.disp_tables` — has one).
+    Both are `none` exactly on an empty block; otherwise both are attained upper bounds
+    (`C07.dispMaxU8_spec` from the regenerated tables; `maxDispatch_ge` / `maxDispatch_attained`),
+    and `≤` on `u8` is antisymmetric. -/
+theorem scannerMax_eq_c07 (arm : Disc.Arm) (sc : Disc.Scores 32) :
+    Scanner.maxDispatch arm sc =
+      Maximum.dispMaxU8 C07.u8Cmp (backendOf arm) sc.data.rows (fun r c => sc.data.get r c) := by
+  cases hs : Scanner.maxDispatch arm sc with
+  | none =>
+    exact ((C07.dispMaxU8_none_iff _ _ _ _).2 (C02.maxDispatch_none arm sc hs)).symm
+  | some m =>
+    have hdir := maxDispatch_isMax_direct arm sc m hs
+    cases hd : Maximum.dispMaxU8 C07.u8Cmp (backendOf arm) sc.data.rows
+        (fun r c => sc.data.get r c) with
+    | none =>
+      obtain ⟨⟨r, _, hr, -⟩, -⟩ := hdir
+      have h0 := (C07.dispMaxU8_none_iff _ _ _ _).1 hd
+      omega
+    | some v =>
+      rw [hdir.unique u8Cmp_isU8.anti (C07.dispMaxU8_spec _ u8Cmp_isU8 _ _ _ v hd)]
+
+-- both sides compute, on every arm: the planted 200, `some 0` on zeros, `none` on the empty block
+example : ∀ arm ∈ [Disc.Arm.generic, .sse2, .avx2],
+    Scanner.maxDispatch arm lBlk = some 200 ∧
+    Maximum.dispMaxU8 C07.u8Cmp (backendOf arm) lBlk.data.rows (fun r c => lBlk.data.get r c) = some 200 ∧
+    Scanner.maxDispatch arm lZero = some 0 ∧
+    Maximum.dispMaxU8 C07.u8Cmp (backendOf arm) lZero.data.rows (fun r c => lZero.data.get r c) = some 0 ∧
+    Scanner.maxDispatch arm (Disc.Scores.empty : Disc.Scores 32) = none ∧
+    Maximum.dispMaxU8 C07.u8Cmp (backendOf arm) (Disc.Scores.empty : Disc.Scores 32).data.rows
+      (fun r c => (Disc.Scores.empty : Disc.Scores 32).data.get r c) = none := by
+  decide +kernel
+
+/-- **2. The scanner's candidate list IS the trait-default `threshold` of C07** (comparison read from
+    pli/mod.rs: `genericThresholdRel`): the same list, in the same row-major order -/
+theorem scannerThreshold_eq_c07 (sc : Disc.Scores 32) (t : UInt8) :
+    Scanner.threshold sc t =
+      Maximum.thresholdGeneric C07.u8Cmp 32 sc.data.rows (fun r c => sc.data.get r c) t := by
+  unfold Scanner.threshold Maximum.thresholdGeneric
+  simp only [LMV.Gen.MaxK.genericThresholdRel, LMV.Gen.MaxK.Rel.eval, C07.u8Cmp, ge_iff_le]
+
+/-- every dispatcher arm uses the trait default for `threshold` (`Maximum.Striped.threshold` ignores
+    its arm): `StripedScores::threshold` of C07 is the scanner's candidate list, as offsets -/
+theorem scannerThreshold_all_arms (arm : Disc.Arm) (sc : Disc.Scores 32) (t : UInt8) :
+    Maximum.Striped.threshold C07.u8Cmp (backendOf arm) ⟨sc.data, sc.maxIndex⟩ t =
+      (Scanner.threshold sc t).map fun mc => mc.2 * sc.data.rows + mc.1 := by
+  rw [scannerThreshold_eq_c07]; rfl
+
+example : Scanner.threshold lBlk 7 = [(0, 3), (0, 20), (1, 9)] ∧
+    Maximum.thresholdGeneric C07.u8Cmp 32 lBlk.data.rows (fun r c => lBlk.data.get r c) 7 =
+      [(0, 3), (0, 20), (1, 9)] ∧
+    Maximum.Striped.threshold C07.u8Cmp .sse2 ⟨lBlk.data, lBlk.maxIndex⟩ 7 = [6, 40, 19] := by
+  decide +kernel
+
+/-! #### 3. what the scanner proofs consume, as consequences of C07's specifications -/
+
+/-- `maxDispatch_none` (both directions), from `C07.dispMaxU8_none_iff` -/
+theorem scannerMax_none_iff (arm : Disc.Arm) (sc : Disc.Scores 32) :
+    Scanner.maxDispatch arm sc = none ↔ sc.data.rows = 0 := by
+  rw [scannerMax_eq_c07]; exact C07.dispMaxU8_none_iff _ _ _ _
+
+/-- the scanner's block maximum is the attained maximum of the block, from `C07.dispMaxU8_spec` -/
+theorem scannerMax_isMax (arm : Disc.Arm) (sc : Disc.Scores 32) (m : UInt8)
+    (hm : Scanner.maxDispatch arm sc = some m) :
+    C07.IsMax C07.u8Cmp sc.data.rows 32 (fun r c => sc.data.get r c) m := by
+  rw [scannerMax_eq_c07] at hm
+  exact C07.dispMaxU8_spec _ u8Cmp_isU8 _ _ _ m hm
+
+/-- `maxDispatch_ge`, from `C07.dispMaxU8_spec` -/
+theorem scannerMax_ge (arm : Disc.Arm) (sc : Disc.Scores 32) (m : UInt8)
+    (hm : Scanner.maxDispatch arm sc = some m) (r c : Nat) (hr : r < sc.data.rows) (hc : c < 32) :
+    sc.data.get r c ≤ m :=
+  of_decide_eq_true ((scannerMax_isMax arm sc m hm).2 r c hr hc)
+
+/-- `threshold_mem`, from `C07.mem_thresholdGeneric` -/
+theorem scannerThreshold_mem (sc : Disc.Scores 32) (t : UInt8) (r c : Nat) :
+    (r, c) ∈ Scanner.threshold sc t ↔ r < sc.data.rows ∧ c < 32 ∧ t ≤ sc.data.get r c := by
+  rw [scannerThreshold_eq_c07, C07.mem_thresholdGeneric]
+  simp only [C07.u8Cmp, decide_eq_true_eq]
+
+/-- `threshold_nodup`, from `C07.thresholdGeneric_nodup` -/
+theorem scannerThreshold_nodup (sc : Disc.Scores 32) (t : UInt8) : (Scanner.threshold sc t).Nodup := by
+  rw [scannerThreshold_eq_c07]; exact C07.thresholdGeneric_nodup _ _ _ _ _
+
+example : C07.IsMax C07.u8Cmp lBlk.data.rows 32 (fun r c => lBlk.data.get r c) 200 :=
+  scannerMax_isMax .avx2 lBlk 200 (by decide +kernel)
+example : (1, 9) ∈ Scanner.threshold lBlk 8 ∧ (0, 3) ∉ Scanner.threshold lBlk 8 := by
+  rw [scannerThreshold_mem, scannerThreshold_mem]; decide +kernel
+
+end LinkC07
+
 /-! ### transfer of C02 / C03 -/
 
 section transfer
@@ -302,6 +433,138 @@ theorem scanner_best_hit_lane (arm : Disc.Arm) (buf : Nat → Nat → LMV.Scores
   · rintro b rfl
     exact ⟨hB.1, fun h hh => (C03.erat_laws.gt_false_iff _ _).mp (hB.2 h hh)⟩
 
+/-! #### 4. C02 / C03 for kernels whose `max` / `threshold` are C07's table-driven functions -/
+
+/-- the kernels of a `Scanner` whose block scoring is C01's lane-level `u8` pipeline (as in
+    `kernelsLane`), whose block maximum is C07's dispatcher `Maximum<u8, U32> for Pipeline<A, Dispatch>`
+    (`Maximum.dispMaxU8`: arm table `dispU8Max`, kernel tables `mu8Init` / `mu8AccFirst` /
+    `genericArgmaxRel` of `LMV.Gen.MaxK`) and whose candidate list is C07's trait-default
+    `Threshold::threshold` (`Maximum.thresholdGeneric`: `genericThresholdRel`) -/
+def kernelsC07 [Inhabited α] (pssm : Mat α K) (dm : Discrete α K) (seq : Striped 32) (arm : Disc.Arm)
+    (buf : Nat → Nat → LMV.Scores UInt8 32) : Kernels α 32 where
+  seqRows := seq.data.rows - seq.wrap
+  scoreRows lo hi :=
+    (Score.dispatchU8 (armOf arm) 0 satU8 satU8 dm.data seq lo hi (buf lo hi)).map toDisc
+  max := fun sc =>
+    Maximum.dispMaxU8 C07.u8Cmp (backendOf arm) sc.data.rows (fun r c => sc.data.get r c)
+  threshold := fun sc t =>
+    Maximum.thresholdGeneric C07.u8Cmp 32 sc.data.rows (fun r c => sc.data.get r c) t
+  scorePosition := scorePosition pssm seq
+  scale := dm.scale
+
+/-- by 1 and 2 this is the record of `kernelsLane`, i.e. the scanner of C02 / C03 with lane-level
+    block scoring: the hand-written `max` / `threshold` of Model/Scanner can be read as C07's -/
+theorem kernelsC07_eq_kernelsLane [Inhabited α] (pssm : Mat α K) (dm : Discrete α K)
+    (seq : Striped 32) (arm : Disc.Arm) (buf : Nat → Nat → LMV.Scores UInt8 32) :
+    kernelsC07 pssm dm seq arm buf = kernelsLane pssm dm seq arm buf := by
+  have hmax : (fun sc : Disc.Scores 32 => Maximum.dispMaxU8 C07.u8Cmp (backendOf arm) sc.data.rows
+      (fun r c => sc.data.get r c)) = maxDispatch arm :=
+    funext fun sc => (scannerMax_eq_c07 arm sc).symm
+  have hthr : (fun (sc : Disc.Scores 32) t => Maximum.thresholdGeneric C07.u8Cmp 32 sc.data.rows
+      (fun r c => sc.data.get r c) t) = threshold :=
+    funext fun sc => funext fun t => (scannerThreshold_eq_c07 sc t).symm
+  unfold kernelsC07 kernelsLane
+  rw [hmax, hthr]
+
+/-- the `max` / `threshold` fields of the real `Scanner.kernels` (per-cell block scoring, any build
+    profile) are C07's functions too -/
+theorem kernels_max_threshold_eq_c07 [Inhabited α] (pssm : Mat α K) (dm : Discrete α K)
+    (seq : Striped 32) (arm : Disc.Arm) (mode : AddMode) (sc : Disc.Scores 32) (t : UInt8) :
+    (kernels pssm dm seq arm mode).max sc = (kernelsC07 pssm dm seq arm fun _ _ => Score.empty).max sc ∧
+    (kernels pssm dm seq arm mode).threshold sc t =
+      (kernelsC07 pssm dm seq arm fun _ _ => Score.empty).threshold sc t :=
+  ⟨scannerMax_eq_c07 arm sc, scannerThreshold_eq_c07 sc t⟩
+
+/-- **`KernelSpec` with the `max` / `threshold` clauses discharged by C07.**  The four clauses about
+    the block maximum and the candidate list are `C07.dispMaxU8_none_iff`, `C07.dispMaxU8_spec`,
+    `C07.thresholdGeneric_nodup` and `C07.mem_thresholdGeneric` (not the lemmas of
+    Lemmas/ScanKernels about the hand-written copies); the others are those of `kernelsLane_spec`. -/
+theorem kernelsC07_spec (arm : Disc.Arm) (buf : Nat → Nat → LMV.Scores UInt8 32)
+    {p : Mat ERat K} {x : ℕ → ℕ → ℚ} (hfin : C08.FiniteEntries p x) (hK : 2 ≤ K) (hK16 : K ≤ 16)
+    {dm : Discrete ERat K} (hdm : toDiscrete p = .ok dm) (hf : 0 < C08.facQ K x p.rows)
+    (st : Striped 32) (s : List Nat) (hinv : Inv (K - 1) st s) (hs : ∀ a ∈ s, a < K)
+    (hM : 1 ≤ p.rows) (hwrap : p.rows - 1 ≤ st.wrap) :
+    C02.KernelSpec (kernelsC07 p dm st arm buf) (seqRowsOf 32 s.length)
+      (s.length + 1 - p.rows) (C02.scoreAt p s) := by
+  have spec := kernelsLane_spec arm buf hfin hK hK16 hdm hf st s hinv hs hM hwrap
+  exact
+    { hC := spec.hC
+      seqRows := spec.seqRows
+      fits := spec.fits
+      scoreRows := spec.scoreRows
+      scoreRowsShort := spec.scoreRowsShort
+      max_none := fun ds h => (C07.dispMaxU8_none_iff _ _ _ _).1 h
+      max_ge := fun ds m hm r c hr hc =>
+        of_decide_eq_true ((C07.dispMaxU8_spec _ u8Cmp_isU8 _ _ _ m hm).2 r c hr hc)
+      thr_nodup := fun ds t8 => C07.thresholdGeneric_nodup _ _ _ _ _
+      thr_mem := fun ds t8 r c => by
+        show (r, c) ∈ Maximum.thresholdGeneric C07.u8Cmp 32 ds.data.rows _ t8 ↔ _
+        rw [C07.mem_thresholdGeneric]
+        simp only [C07.u8Cmp, decide_eq_true_eq]
+      scorePosition := spec.scorePosition
+      scale_mono := spec.scale_mono }
+
+/-- **C02 on C07's kernels**: `C02.scanner_yields_exactly`, word for word, with lane-level block
+    scoring (C01) and the table-driven block maximum / candidate list (C07) -/
+theorem scanner_yields_exactly_c07 (arm : Disc.Arm) (buf : Nat → Nat → LMV.Scores UInt8 32)
+    {p : Mat ERat K} {x : ℕ → ℕ → ℚ} (hfin : C08.FiniteEntries p x) (hK : 2 ≤ K) (hK16 : K ≤ 16)
+    (hf : 0 < C08.facQ K x p.rows)
+    (st : Striped 32) (s : List Nat) (hinv : Inv (K - 1) st s) (hs : ∀ a ∈ s, a < K)
+    (hM : 1 ≤ p.rows) (hwrap : p.rows - 1 ≤ st.wrap) (t : ERat) (block : Nat) (hb : 1 ≤ block)
+    (fuel : Nat) (hfuel : s.length + 1 - p.rows < fuel) :
+    ∃ dm, toDiscrete p = .ok dm ∧
+      ∃ hs, collect (kernelsC07 p dm st arm buf) t block fuel State.init = .ok hs ∧
+        hs.Perm ((C02.allQual (C02.scoreAt p s) t (s.length + 1 - p.rows)).map
+          (C02.mkHit (C02.scoreAt p s))) := by
+  obtain ⟨dm, hdm, -⟩ := C08.toDiscrete_closed hfin hK
+  exact ⟨dm, hdm, C02.collect_spec
+    (kernelsC07_spec arm buf hfin hK hK16 hdm hf st s hinv hs hM hwrap) t block hb fuel hfuel⟩
+
+/-- **C03 on C07's kernels**: `C03.scanner_best_hit`, word for word -/
+theorem scanner_best_hit_c07 (arm : Disc.Arm) (buf : Nat → Nat → LMV.Scores UInt8 32)
+    {p : Mat ERat K} {x : ℕ → ℕ → ℚ} (hfin : C08.FiniteEntries p x) (hK : 2 ≤ K) (hK16 : K ≤ 16)
+    (hf : 0 < C08.facQ K x p.rows)
+    (st : Striped 32) (s : List Nat) (hinv : Inv (K - 1) st s) (hs : ∀ a ∈ s, a < K)
+    (hM : 1 ≤ p.rows) (hwrap : p.rows - 1 ≤ st.wrap) (t : ERat) (block : Nat) (hb : 1 ≤ block)
+    (n : Nat) :
+    ∃ dm, toDiscrete p = .ok dm ∧
+      ∃ ret state rest r,
+        nextN (kernelsC07 p dm st arm buf) t block n State.init = .ok (ret, state) ∧
+        Scanner.max (kernelsC07 p dm st arm buf) t block state = .ok r ∧
+        (ret ++ rest).Perm
+          ((C02.allQual (C02.scoreAt p s) t (s.length + 1 - p.rows)).map
+            (C02.mkHit (C02.scoreAt p s))) ∧
+        (r = none ↔ rest = []) ∧
+        ∀ b, r = some b → b ∈ rest ∧ ∀ h ∈ rest, ERat.le h.score b.score = true := by
+  obtain ⟨dm, hdm, -⟩ := C08.toDiscrete_closed hfin hK
+  have spec := kernelsC07_spec arm buf hfin hK hK16 hdm hf st s hinv hs hM hwrap
+  obtain ⟨ret, state, r, hn, hr, hperm, hB⟩ := C03.max_after_next spec C03.erat_laws t block hb n
+  refine ⟨dm, hdm, ret, state, _, r, hn, hr, hperm, ?_, ?_⟩
+  · cases r with
+    | none =>
+      simp only [true_iff]
+      apply List.eq_nil_iff_forall_not_mem.mpr
+      exact fun h hh => hB h hh
+    | some b =>
+      simp only [reduceCtorEq, false_iff]
+      exact List.ne_nil_of_mem hB.1
+  · rintro b rfl
+    exact ⟨hB.1, fun h hh => (C03.erat_laws.gt_false_iff _ _).mp (hB.2 h hh)⟩
+
+/-- the two transferred theorems are about the same scanner as `scanner_yields_exactly_lane` /
+    `scanner_best_hit_lane`: every run of `collect`, `nextN`, `Scanner.max` on the two records is the
+    same computation -/
+theorem runs_c07_eq_lane [Inhabited α] (pssm : Mat α K) (dm : Discrete α K) (seq : Striped 32)
+    (arm : Disc.Arm) (buf : Nat → Nat → LMV.Scores UInt8 32) (t : α) (block fuel : Nat)
+    (st : State α) :
+    collect (kernelsC07 pssm dm seq arm buf) t block fuel st =
+      collect (kernelsLane pssm dm seq arm buf) t block fuel st ∧
+    nextN (kernelsC07 pssm dm seq arm buf) t block fuel st =
+      nextN (kernelsLane pssm dm seq arm buf) t block fuel st ∧
+    Scanner.max (kernelsC07 pssm dm seq arm buf) t block st =
+      Scanner.max (kernelsLane pssm dm seq arm buf) t block st := by
+  rw [kernelsC07_eq_kernelsLane]; exact ⟨rfl, rfl, rfl⟩
+
 end transfer
 
 /-! ### non-vacuity of §B2 -/
@@ -355,6 +618,32 @@ example : ∃ dm, toDiscrete C08.pex = .ok dm ∧
     (by decide) 45 (by decide +kernel)
 -- … and the run yields the four `C C` positions (threshold 2 = the maximum)
 example : runLane (.fin 2) 1 = some [38, 22, 37, 7] ∧ runLane (.fin 2) 3 = some [37, 7, 38, 22] := by
+  decide +kernel
+
+/-- the same scanner on C07's kernels (`kernelsC07`: table-driven block maximum and candidate list) -/
+def runC07 (arm : Disc.Arm) (t : ERat) (block : Nat) : Option (List Nat) :=
+  match toDiscrete C08.pex with
+  | .ok dm =>
+    match collect (kernelsC07 C08.pex dm bSeq arm fun _ _ => Score.empty) t block 45 State.init with
+    | .ok hs => some (hs.map (·.position))
+    | .error _ => none
+  | .error _ => none
+
+-- the hypotheses of `scanner_yields_exactly_c07` / `scanner_best_hit_c07` hold …
+example : ∃ dm, toDiscrete C08.pex = .ok dm ∧
+    ∃ hs, collect (kernelsC07 C08.pex dm bSeq .avx2 fun _ _ => Score.empty) (.fin 2) 1 45 State.init = .ok hs ∧
+      hs.Perm ((C02.allQual (C02.scoreAt C08.pex bS) (.fin 2) (bS.length + 1 - C08.pex.rows)).map
+        (C02.mkHit (C02.scoreAt C08.pex bS))) :=
+  scanner_yields_exactly_c07 .avx2 _ C08.pex_finite (by decide) (by decide) C08.pex_factor_pos
+    bSeq bS bSeq_inv (by decide +kernel) (by decide +kernel) (by decide +kernel) (.fin 2) 1
+    (by decide) 45 (by decide +kernel)
+example := scanner_best_hit_c07 .generic (fun _ _ => Score.empty) C08.pex_finite (by decide) (by decide)
+  C08.pex_factor_pos bSeq bS bSeq_inv (by decide +kernel) (by decide +kernel) (by decide +kernel)
+  (.fin 2) 3 (by decide) 1
+-- … and the run on C07's kernels yields the four `C C` positions, on every arm, in the order of the
+-- hand-written kernels
+example : ∀ arm ∈ [Disc.Arm.generic, .sse2, .avx2],
+    runC07 arm (.fin 2) 1 = some [38, 22, 37, 7] ∧ runC07 arm (.fin 2) 3 = some [37, 7, 38, 22] := by
   decide +kernel
 
 end B2Examples
